@@ -339,12 +339,30 @@ func findClaim(s *chain.Snapshot, key string) *chain.ClaimJ {
 // refSession computes the reference session membership from the committed state after the session's first block
 // (candidates, parameters) and after its last block (eligibility), as the protocol defines it.
 func refSession(byH map[int64]*chain.Snapshot, appPub, chainID string, sbh, b int64) (members map[string]bool, ok bool, why string) {
-	start, end := byH[sbh], byH[sbh+b-1]
+	nodes, ok, why := refSessionBetween(byH[sbh], byH[sbh+b-1], appPub, chainID)
+	members = map[string]bool{}
+	for _, a := range nodes {
+		members[a] = true
+	}
+	return members, ok, why
+}
+
+// refSessionBetween: the session the protocol defines for (application, chain) from the committed state after the
+// session's first block (candidates = node RECORDS that are staked and declare the chain, in address order; parameters)
+// and a later state (eligibility). Returns the members in selection order.
+func refSessionBetween(start, end *chain.Snapshot, appPub, chainID string) (nodes []string, ok bool, why string) {
 	if start == nil || end == nil || start.SessionSeed == "" {
 		return nil, false, "snapshots missing"
 	}
+	var addrs []string
+	for a, n := range start.Nodes {
+		if n.Status == 2 && contains(n.Chains, chainID) {
+			addrs = append(addrs, a)
+		}
+	}
+	sort.Strings(addrs)
 	var cands [][]byte
-	for _, a := range start.PosIdx.ByChain[chainID] {
+	for _, a := range addrs {
 		bz, _ := hex.DecodeString(a)
 		cands = append(cands, bz)
 	}
@@ -357,11 +375,10 @@ func refSession(byH map[int64]*chain.Snapshot, appPub, chainID string, sbh, b in
 			return sessionref.NodeView{Present: true, Jailed: n.Jailed, Chains: n.Chains}
 		},
 		EnforceMaxChains: true, MaxChains: pInt(start, "pos/MaximumChains"), Count: int(pInt(start, "pocketcore/SessionNodeCount"))})
-	members = map[string]bool{}
 	for _, a := range res.Nodes {
-		members[hex.EncodeToString(a)] = true
+		nodes = append(nodes, hex.EncodeToString(a))
 	}
-	return members, res.OK, ""
+	return nodes, res.OK, ""
 }
 
 func checkClaims(r *ev.Run, prop string) {
